@@ -61,6 +61,8 @@ func main() {
 		modeChurn(os.Args[2:])
 	case "life":
 		modeLife(os.Args[2:])
+	case "racestress":
+		modeRaceStress(os.Args[2:])
 	default:
 		fmt.Fprintln(os.Stderr, "unknown mode", os.Args[1])
 		os.Exit(2)
